@@ -99,4 +99,122 @@ Proof.
     + intros E; inversion E; reflexivity.
 Qed.
 
+Lemma good_header_false : forall s : st, header T V W s = false -> good s.
+Proof. intros s H G. rewrite H in G. discriminate. Qed.
+
+Notation step_pre := (step_pre T V D W read_dep).
+Notation run_pre := (run_pre T V D W read_dep).
+Notation do_dir := (do_dir T V W emit).
+Notation do_act := (do_act T V W emit).
+Notation do_stmt := (do_stmt T V D W read_dep emit).
+
+Lemma step_pre_good : forall p (s s1 : st), good s -> step_pre p s = Ok s1 -> good s1.
+Proof.
+  intros p s s1 G. destruct p; cbn.
+  - intros E. apply good_header_false. eapply flush_good; eauto.
+  - intros E. inversion E. exact G.
+  - discriminate.
+  - destruct (read_dep d (world T V W s)) as [w [e|]]; [discriminate|]. intros E. inversion E. exact G.
+Qed.
+
+Lemma run_pre_good : forall ps (s s1 : st), good s -> run_pre ps s = Ok s1 -> good s1.
+Proof.
+  induction ps as [|p ps IH]; intros s s1 G; cbn.
+  - intros E. inversion E. subst. exact G.
+  - destruct (step_pre p s) eqn:E1; [|discriminate]. cbn. apply IH. eapply step_pre_good; eauto.
+Qed.
+
+(* do_dir leaves the comment buffer, the header flag and the queued attribute alone *)
+Lemma do_dir_frame : forall k g sh (s s1 : st), do_dir k g sh s = Ok s1 ->
+  header T V W s1 = header T V W s /\ pending T V W s1 = pending T V W s /\ comment T V W s1 = comment T V W s
+  /\ line_no T V W s1 = line_no T V W s /\ closed T V W s1 = closed T V W s.
+Proof.
+  intros k g sh s s1. unfold Lines.do_dir, raise_here, raise_at.
+  destruct k.
+  - intros E. inversion E. cbn. auto.
+  - destruct g as [|[|]| |]; intros E; inversion E; auto.
+  - destruct (c_mode T V (cur T V W s)); [discriminate|]. destruct g; intros E; inversion E; cbn; auto.
+  - destruct (c_mode T V (cur T V W s)); [discriminate|]. destruct g; intros E; inversion E; cbn; auto.
+  - destruct g; try discriminate. destruct (_ || _); intros E; inversion E; cbn; auto.
+  - destruct g; try discriminate. destruct (_ || _); intros E; inversion E; cbn; auto.
+  - discriminate.
+Qed.
+
+Lemma do_act_good : forall x (s s1 : st), good s -> do_act x s = Ok s1 -> good s1.
+Proof.
+  intros x s s1 G. unfold Lines.do_act. destruct (flush s) as [f|] eqn:Ef; [|discriminate]. cbn.
+  pose proof (flush_good _ _ Ef) as Hf.
+  assert (Pf : pending T V W f = None).
+  { revert Ef. destruct s as [c h p cl cu d ln w]. unfold good in G. cbn in G. unfold Lines.flush. cbn.
+    destruct h.
+    - rewrite (G eq_refl). intros E; inversion E; reflexivity.
+    - destruct p as [[[a cf] k]|]; [destruct (commit_fails T V a cf cu)|]; intros E; inversion E; reflexivity. }
+  destruct x.
+  - destruct (c_mode T V (cur T V W f)) as [[|e]|]; unfold raise_here, raise_at; intros E; inversion E;
+      apply good_header_false; cbn; exact Hf.
+  - intros E. apply do_dir_frame in E. destruct E as (H1 & _). apply good_header_false. congruence.
+  - cbn. destruct (closed T V W f); unfold raise_here, raise_at; intros E; inversion E. intros _. cbn. exact Pf.
+Qed.
+
+Lemma step_line_good : forall l (s s1 : st), good s -> step_line l s = Ok s1 -> good s1.
+Proof.
+  intros l s s1 G. unfold Lines.step_line.
+  destruct (l_stmt T V D l) as [x|].
+  - unfold Lines.do_stmt. destruct (run_pre (s_pre T V D x) s) as [s2|] eqn:E2; [|discriminate]. cbn.
+    destruct (do_act (s_act T V D x) s2) as [s3|] eqn:E3; [|discriminate]. cbn.
+    assert (G3 : good s3) by (eapply do_act_good; [eapply run_pre_good; eauto|eauto]).
+    assert (G4 : good (add_comment T V D W l s3)).
+    { unfold add_comment. destruct (l_comment T V D l); [|exact G3]. exact G3. }
+    destruct (is_empty_text T V D l).
+    + intros E. apply good_header_false. eapply flush_good; eauto.
+    + intros E. inversion E. subst. exact G4.
+  - cbn. assert (G4 : good (add_comment T V D W l s)).
+    { unfold add_comment. destruct (l_comment T V D l); exact G. }
+    destruct (is_empty_text T V D l).
+    + intros E. apply good_header_false. eapply flush_good; eauto.
+    + intros E. inversion E. subst. exact G4.
+Qed.
+
+Lemma run_upto_good : forall ls (s s1 : st), good s -> run_upto ls s = Ok s1 -> good s1.
+Proof.
+  induction ls as [|l r IH]; intros s s1 G; cbn.
+  - intros E. inversion E. subst. exact G.
+  - destruct (step_line l s) as [s2|] eqn:E2; [|discriminate]. cbn. apply IH.
+    pose proof (step_line_good _ _ _ G E2) as G2. exact G2.
+Qed.
+
+Lemma finalize_set_line : forall n (s : st), finalize (set_line T V W n s) = finalize s.
+Proof. intros n [c h p cl cu d ln w]. reflexivity. Qed.
+
+Lemma finish_set_line : forall n (s : st), finish (set_line T V W n s) = finish s.
+Proof.
+  intros. unfold Lines.finish. rewrite flush_set_line. destruct (flush s); cbn; [apply finalize_set_line|reflexivity].
+Qed.
+
+Lemma flush_finish : forall s : st, good s -> bind (flush s) finish = finish s.
+Proof.
+  intros s G. unfold Lines.finish. destruct (flush s) as [s1|] eqn:E; cbn; [|reflexivity].
+  rewrite (flush_idem _ _ G E). reflexivity.
+Qed.
+
+Lemma step_empty_line : forall s : st, step_line (empty_line) s = flush s.
+Proof. intros [c h p cl cu d ln w]. reflexivity. Qed.
+
+(* every way the text can end: with or without a final line feed *)
+Theorem final_newline : forall ls w, ls <> [] -> run (ls ++ [empty_line]) w = run ls w.
+Proof.
+  intros ls w NE. destruct (exists_last NE) as (p & l & ->).
+  unfold Lines.run. rewrite <- app_assoc. cbn [app].
+  rewrite run_from_split, run_from_last. rewrite !bind_assoc.
+  destruct (run_upto p (init T V W w)) as [s'|] eqn:Ep; cbn; [|reflexivity].
+  pose proof (run_upto_good _ _ _ (good_init w) Ep) as G'.
+  destruct (step_line l s') as [s1|] eqn:E1; cbn; [|reflexivity].
+  pose proof (step_line_good _ _ _ G' E1) as G1.
+  rewrite bind_ok. unfold Lines.next_line. rewrite flush_set_line.
+  destruct (flush s1) as [s2|] eqn:E2.
+  - cbn. rewrite finish_set_line. unfold Lines.finish. rewrite E2. cbn.
+    rewrite (flush_idem _ _ G1 E2). reflexivity.
+  - cbn. unfold Lines.finish. rewrite E2. reflexivity.
+Qed.
+
 End Basics.
